@@ -248,6 +248,15 @@ class C05(Harness):
             t.register(s2)
         return t
 
+    def probe_twin(self, cfg, world):
+        """probe of a freshly built twin; it depends only on the configuration and the survivor's values, so it is computed once per such pair
+        (per worker process)"""
+        key = (cfg['name'], repr(sorted((n, world.tok(getattr(world.o, n))) for n in ('a', 'b', 'n'))))
+        cache = self.__dict__.setdefault('_twin_cache', {})
+        if key not in cache:
+            cache[key] = self.probe(self.make_twin(cfg, world))
+        return cache[key]
+
     def check_end(self, cfg, world, program, faults):
         vs = []
         o = world.o
@@ -263,9 +272,8 @@ class C05(Harness):
                 len(o.param._events), sorted({e.name for e in o.param._events}), ctx)))
         if vs:
             return vs
-        t = self.make_twin(cfg, world)
-        a = self.probe(world)
-        b = self.probe(t)
+        a = self.probe_twin(cfg, world)          # before the survivor's probe changes its values
+        b, a = a, self.probe(world)
         if a != b:
             for x, y in zip(a, b):
                 if x != y:
